@@ -1,11 +1,13 @@
 //! C18 - Reading AS OF a past point returns what was current then.
 //!
 //! Record/replay differential between the live engine (index-driven) and the historical engine
-//! (version-log reconstruction): histories of committed statements; after every commit `s` a
-//! battery of queries is executed and recorded; after later commits and at the end every recorded
-//! answer is replayed with `AS OF SEQ s` / `AS OF TX <tx of s>` / `AS OF TIME <committed_at of s>`
-//! and must be equal. Plus: the epistemic payload of every Assertion / Evidence is identical in
-//! all of its version rows (direct scan of `element_versions`).
+//! (version-log reconstruction): histories of committed statements and schema activations (core
+//! only / a test package in two versions whose `reads` predicate turns functional), half of them
+//! closed and reopened once; after every commit `s` a battery of queries is executed and recorded;
+//! after the next commit and at the end every recorded answer is replayed with `AS OF SEQ s` /
+//! `AS OF TX <tx of s>` / `AS OF TIME <committed_at of s>` / in a request bound to the snapshot
+//! token of `s`, and must be equal. Plus: the epistemic payload of every Assertion / Evidence is
+//! identical in all of its version rows (direct scan of `element_versions`).
 
 use anda_cognitive_nexus::CognitiveNexus;
 use anda_cognitive_nexus::nexus::DEFAULT_SPACE;
@@ -75,6 +77,30 @@ fn reads_statement(rng: &mut Rng, w: &World) -> Option<Cmd> {
         jstr(&subject), rng.range(1, 9), jstr(&by2), rng.range(1, 9)
     );
     Some(Cmd::new(text).param("gs", json!(subject)).param("go1", json!(o1)).param("go2", json!(o2)))
+}
+
+/// Takes an element out of ordinary recall that other elements hang on: a Concept with
+/// structural references or one that is an endpoint of active Propositions, or such a
+/// Proposition itself. Every pattern family has its own "active only" check in the historical
+/// engine; they only matter once connected elements are archived / tombstoned.
+fn shelve_statement(rng: &mut Rng, w: &World, sc: &Scan) -> Option<Cmd> {
+    let rows = elements(sc);
+    let props = World::active(&w.props);
+    let mut targets: Vec<String> = World::active(&w.concepts)
+        .iter()
+        .filter(|c| {
+            rows.get(&c.id).map(|r| r["structural"].as_object().map(|m| !m.is_empty()).unwrap_or(false)).unwrap_or(false)
+                || props.iter().any(|p| p.subject == c.id || p.object == c.id)
+        })
+        .map(|c| c.id.clone())
+        .collect();
+    targets.extend(props.iter().filter(|p| p.typ == "same_as").map(|p| p.id.clone()));
+    if targets.is_empty() {
+        return None;
+    }
+    let t = rng.pick(&targets).clone();
+    let verb = if rng.chance(3, 4) { "ARCHIVE" } else { "TOMBSTONE" };
+    Some(Cmd::new(format!("{verb} {}", jstr(&t))))
 }
 
 // ---------------------------------------------------------------------------------------------
@@ -697,8 +723,12 @@ async fn replay_one(
 }
 
 async fn hist_case_async(case: u64, rng: &mut Rng, st: &mut Stats, n_commits: usize, mid_replays: usize) -> Result<(), String> {
-    let nexus = open_nexus(Arc::new(InMemory::new()), &format!("c18_{case}")).await?;
+    let disk: Arc<dyn object_store::ObjectStore> = Arc::new(InMemory::new());
+    let db_name = format!("c18_{case}");
+    let mut nexus = open_nexus(disk.clone(), &db_name).await?;
     activate_profile(&nexus).await?;
+    // half of the histories are closed and reopened once: the past must not live in caches
+    let reopen_at = if rng.bool() { Some(2 + rng.usize(n_commits.saturating_sub(4).max(1))) } else { None };
     let mut g = Gen { uid: 0, tag: format!("h{case}") };
     let spaced = rng.chance(2, 3); // keep commit timestamps apart (workload shaping only)
     for (v, f) in [("1.0.0", false), ("2.0.0", true)] {
@@ -713,8 +743,16 @@ async fn hist_case_async(case: u64, rng: &mut Rng, st: &mut Stats, n_commits: us
     let mut history: Vec<Value> = vec![];
     let mut attempts = 0;
     let mut kinds_seen: BTreeSet<&'static str> = BTreeSet::new();
+    let mut reopened = false;
     while recorded.len() < n_commits && attempts < n_commits * 3 {
         attempts += 1;
+        if reopen_at == Some(recorded.len()) && !reopened {
+            reopened = true;
+            nexus.close().await.map_err(|e| format!("close: {e:?}"))?;
+            nexus = open_nexus(disk.clone(), &db_name).await?;
+            st.count("history_reopens");
+            history.push(json!({"host": "close + CognitiveNexus::connect on the same object store"}));
+        }
         let sc = scan(&nexus).await?;
         let w = world_of(&sc);
         // --- one history step: a KML statement or a schema activation
@@ -752,6 +790,11 @@ async fn hist_case_async(case: u64, rng: &mut Rng, st: &mut Stats, n_commits: us
                 if let Some(cmd) = reads_statement(rng, &w) {
                     stmt.cmd = cmd;
                     stmt.kinds = vec![if env == Env::Functional { "reads_claims_functional" } else { "reads_claims_plain" }];
+                }
+            } else if rng.chance(1, 8) {
+                if let Some(cmd) = shelve_statement(rng, &w, &sc) {
+                    stmt.cmd = cmd;
+                    stmt.kinds = vec!["shelve_connected_element"];
                 }
             }
             let out = exec(&Via::System(&nexus), &stmt.cmd).await?;
@@ -797,7 +840,7 @@ async fn hist_case_async(case: u64, rng: &mut Rng, st: &mut Stats, n_commits: us
                 ks.push(kind);
             }
             for k in &stmt.kinds {
-                if matches!(*k, "update_again" | "update_sweep" | "upsert_hit" | "assert_sugar" | "reads_claims_functional" | "reads_claims_plain") {
+                if matches!(*k, "update_again" | "update_sweep" | "upsert_hit" | "assert_sugar" | "reads_claims_functional" | "reads_claims_plain" | "shelve_connected_element") {
                     ks.push(k);
                 }
             }
@@ -919,7 +962,8 @@ fn main() {
         "exploration",
         "seeded histories of committed KML statements (create / update / archive / tombstone / \
          retract / supersede / merge / retention / transition / correction, rival claims on a \
-         `reads` slot) with schema activations between three environments: core only, bundled \
+         `reads` slot, shelving of connected elements; half of them closed and reopened once) \
+         with schema activations between three environments: core only, bundled \
          profile + test package 1.0.0 (`reads` an ordinary predicate), bundled profile + test \
          package 2.0.0 (`reads` functional); a history is non-trivial when at least half of the \
          planned commits landed and >= 6 mutation kinds occurred (distinct by statement texts)",
@@ -934,6 +978,7 @@ fn main() {
     run.parallel("hist", t.pick(24, 1200), t.pick(0.9, 0.8), |c, rng, st| hist_case(c, rng, st, t.pick(16, 24), t.pick(0, 3)));
     drain_reports(&mut run);
     run.floor("history_commits", 120);
+    run.floor("history_reopens", 4);
     run.floor("battery_recorded", 6000);
     run.floor("replayed:SEQ", 10000);
     run.floor("replayed:TX", 1000);
@@ -948,7 +993,8 @@ fn main() {
     }
     for k in ["create_concept", "create_proposition", "create_assertion", "update_concept", "update_proposition", "archive", "tombstone", "retract", "supersede", "merge",
               "set_retention", "transition", "correct_evidence", "schema_activation_core_only", "schema_activation_profile",
-              "schema_activation_reads_plain", "schema_activation_reads_functional", "reads_claims_functional", "reads_claims_plain"] {
+              "schema_activation_reads_plain", "schema_activation_reads_functional", "reads_claims_functional", "reads_claims_plain",
+              "shelve_connected_element"] {
         run.floor(&format!("replayed_after:{k}"), 150);
     }
     run.floor("recorded_reads_beliefs_opposed_by_a_rival_value:Functional", 20);
